@@ -73,6 +73,24 @@ pub fn msgpack_markers(b: &[u8]) -> Vec<usize> {
     out
 }
 
+/// Byte ranges of every str payload (start, len), derived from the marker walk.
+pub fn msgpack_strings(b: &[u8]) -> Vec<(usize, usize)> {
+    let mut out = vec![];
+    for at in msgpack_markers(b) {
+        let m = b[at];
+        let (start, len) = match m {
+            0xa0..=0xbf => (at + 1, (m & 0x1f) as usize),
+            0xd9 => (at + 2, *b.get(at + 1).unwrap_or(&0) as usize),
+            0xda => (at + 3, ((*b.get(at + 1).unwrap_or(&0) as usize) << 8) | *b.get(at + 2).unwrap_or(&0) as usize),
+            _ => continue,
+        };
+        if start + len <= b.len() && len > 0 {
+            out.push((start, len));
+        }
+    }
+    out
+}
+
 const SUBST: &[u8] = &[0xc0, 0x90, 0x9f, 0x80, 0x8f, 0xdc, 0xdd, 0xde, 0xdf, 0xd9, 0xda, 0xdb, 0xc6, 0xc7, 0xff, 0xc1, 0xc3, 0xcf];
 
 struct Subject {
@@ -272,8 +290,13 @@ pub fn run(ctx: &mut Ctx) {
         let n_flip = (b.len() * 8) as u64;
         let n_subst = (markers.len() * SUBST.len()) as u64;
         let n_lenpm = (markers.len() * 2) as u64;
+        // every adjacent byte pair inside a string payload replaced by one 2-byte character (the
+        // declared length stays valid, so the decoder accepts it and the *content* becomes hostile)
+        let strings = msgpack_strings(b);
+        let pairs: Vec<usize> = strings.iter().flat_map(|(st, len)| (0..len.saturating_sub(1)).map(move |k| st + k)).collect();
+        let n_pairs = (pairs.len() * 2) as u64;
         let n_rand = ctx.n(1_500, 20_000);
-        let total = n_prefix + n_flip + n_subst + n_lenpm + n_rand;
+        let total = n_prefix + n_flip + n_subst + n_lenpm + n_pairs + n_rand;
         let sub = format!("s{}", k);
         let mut complete = true;
         for f in 0..total {
@@ -305,6 +328,14 @@ pub fn run(ctx: &mut Ctx) {
                 let at = markers[g / 2];
                 d[at] = if g % 2 == 0 { d[at].wrapping_add(1) } else { d[at].wrapping_sub(1) };
                 ("marker-plus-minus-one", d)
+            } else if f < n_prefix + n_flip + n_subst + n_lenpm + n_pairs {
+                let g = (f - n_prefix - n_flip - n_subst - n_lenpm) as usize;
+                let mut d = b.clone();
+                let at = pairs[g / 2];
+                let ch: [u8; 2] = if g % 2 == 0 { [0xc3, 0xa9] } else { [0xd9, 0xbf] }; // 'é' / 'ٿ'
+                d[at] = ch[0];
+                d[at + 1] = ch[1];
+                ("utf8-pair-in-string", d)
             } else {
                 let mut r = Rng::for_case(seed, "c10.rand", f ^ (k << 32));
                 let mut d = b.clone();
@@ -372,13 +403,14 @@ pub fn run(ctx: &mut Ctx) {
         }
         if complete && sample == 1 && ctx.only_case.is_none() {
             ctx.report.exhaustive.push(format!(
-                "subject buffer {} ({} bytes): all {} prefixes, all {} single-bit flips, {} marker substitutions, {} marker +-1 (this shard's share)",
+                "subject buffer {} ({} bytes): all {} prefixes, all {} single-bit flips, {} marker substitutions, {} marker +-1, {} two-byte-character substitutions inside string payloads (this shard's share)",
                 k,
                 b.len(),
                 n_prefix,
                 n_flip,
                 n_subst,
-                n_lenpm
+                n_lenpm,
+                n_pairs
             ));
         }
     }
